@@ -79,6 +79,24 @@ def make_base(kind, seed, workdir):
         meta[b"info"][b"x-info"] = [b"\x80\x81", 1]
         meta[b"info"][b"zz"] = {b"k": b"\xfe"}
         return bencode.encode(meta)
+    if opts == "cross":
+        # a foreign metafile that carries, in the *other* dictionary, keys
+        # named like the editable fields: top-level comment / source / private
+        # (customary for comment) and info-level announce / announce-list /
+        # url-list / httpseeds (unknown info keys as far as torrentfile goes)
+        tree = dict(files)
+        name = world.ROOT_NAME
+        meta = model.ref_v1(name, tree, P0) if ver == "v1" else (
+            model.ref_v2(name, tree, P0, 16384) if ver == "v2"
+            else model.ref_hybrid(name, tree, P0, 16384))
+        meta[b"comment"] = b"top-level comment"
+        meta[b"source"] = b"top-level source"
+        meta[b"private"] = 0
+        meta[b"info"][b"announce"] = b"info-level announce"
+        meta[b"info"][b"announce-list"] = [[b"info-level"]]
+        meta[b"info"][b"url-list"] = [b"info-level url-list"]
+        meta[b"info"][b"httpseeds"] = b"info-level httpseeds"
+        return bencode.encode(meta)
     if opts == "falsy":
         # a foreign metafile whose optional fields are present but empty /
         # zero (as some encoders write them): unnamed ones stay as they are
@@ -375,8 +393,10 @@ class EditBFS:
             "ones with unknown keys including non-UTF-8 byte strings and a "
             "non-UTF-8 key, payloads whose entries are named like the "
             "editable fields, and (C07 only) a well-formed but non-canonical "
-            "'legacy' metafile with keys in insertion order; top-level keys "
-            "named like info-level editable fields are not in the alphabet",
+            "'legacy' metafile with keys in insertion order; a 'cross' base "
+            "carries top-level comment / source / private (not judged when "
+            "the request names that field) and info-level announce / "
+            "announce-list / url-list / httpseeds (unnamed info keys)",
             "the metafile named through several spellings of its path (relative, "
             "dot segments, through a symlinked directory and back with '..'): "
             "the named file changes and nothing else does",
@@ -397,7 +417,7 @@ class EditBFS:
     def groups(self, tier, seed):
         gs = []
         for ver in ("v1", "v2", "hy"):
-            optsets = ["bare", "full", "foreign", "names"]
+            optsets = ["bare", "full", "foreign", "names", "cross"]
             if self.id == "C07":
                 # non-canonical input: only C07 can be judged on it (C06 is
                 # about what torrentfile writes from canonical input)
@@ -434,16 +454,21 @@ class EditBFS:
         if not isinstance(a.get(b"info"), dict):
             return [("no-info-after-edit", None)]
         ntop, ninfo = named_keys(req)
-        # unnamed keys: byte-identical value spans
+        # unnamed keys: byte-identical value spans.  A top-level key named
+        # like an info-level field the request names (a foreign top-level
+        # `comment`, say) is not judged: whether "the comment" includes it is
+        # not fixed by the statement.  Info-level keys named like top-level
+        # fields are ordinary unnamed info keys: an edit naming only trackers
+        # or seeds must not change the info dictionary.
         for k in b:
-            if k in ntop or k == b"info":
+            if k in ntop or k == b"info" or k in ninfo:
                 continue
             if k not in a:
                 probs.append(("unnamed-top-key-removed", k))
             elif bencode.raw(before_raw, b, k) != bencode.raw(after_raw, a, k):
                 probs.append(("unnamed-top-key-changed", k))
         for k in a:
-            if k not in b and k not in ntop:
+            if k not in b and k not in ntop and k not in ninfo:
                 probs.append(("unnamed-top-key-added", k))
         bi, ai = b[b"info"], a[b"info"]
         for k in bi:
@@ -643,6 +668,7 @@ class EditBFS:
         # fixpoint contains the bare base's fixpoint, explored completely)
         depth_cap = 2 if (not thorough and base[1] in ("full", "legacy",
                                                        "names", "falsy",
+                                                       "cross",
                                                        "nested")
                           and route == "lib") else None
         reqs1, pairs = requests(route, g["tier"])
